@@ -891,8 +891,17 @@ verdict_t check_mcase(const mcase_t& c, ctx_t& ctx)
     }
 
     // ---- fit -------------------------------------------------------------------------------------------------
+    const bool refit = c.split_seed % 4 == 0;
+    ctx.label_if(refit, "fitted-twice");
     try
     {
+        // a quarter of the cases fit the SAME model object twice (re-training): the statement is about the state after
+        // fitting, whatever the object held before; the second result is the one that is checked
+        if (refit)
+        {
+            auto first = gboost ? booster.fit(dataset, s.samples, *s.loss, s.params) : linear->fit(dataset, s.samples, *s.loss, s.params);
+            remove_logs(first);
+        }
         result = gboost ? booster.fit(dataset, s.samples, *s.loss, s.params) : linear->fit(dataset, s.samples, *s.loss, s.params);
     }
     catch (const std::exception& e)
